@@ -33,9 +33,13 @@
    client-side invocation (reply) time is earlier (later) than the server-side one, which only widens
    the interval an operation may take effect in.
 
-   Plain reads (get/hget/llen/...) are NOT part of this system: the code serves them from the local
-   store of the replica that believes it leads, without a barrier (see C04_local_read_refuted). *)
-From ZV Require Export Lin.Spec Lin.Checker.
+   Plain reads (get/hget/llen/...):
+     t_read       answered at once from the local store of the replica that believes it leads, without a
+                  barrier. The history is then NOT linearizable in general (C04_local_read_refuted); what IS
+                  guaranteed is proved about [relaxed_hist]: every read returns the state after a prefix of
+                  the agreed log that contains everything the serving replica had applied, i.e. the history is
+                  linearizable once a read is allowed to take effect before its own invocation. *)
+From ZV Require Export Lin.Spec Lin.Checker Lin.Route.
 From Coq Require Export NArith.
 
 Record entry : Type := mkEntry { e_id : nat; e_ts : N; e_op : op }.
@@ -52,7 +56,7 @@ Record rstate : Type := mkR {
 (* a request waiting behind the read-index barrier at replica l_rep *)
 Record lreq : Type := mkL { l_id : nat; l_rep : nat; l_ci : nat }.
 (* (ghost) a request answered by the local shortcut after d_slot log entries *)
-Record ldone : Type := mkD { d_id : nat; d_slot : nat }.
+Record ldone : Type := mkD { d_id : nat; d_slot : nat; d_read : bool }.   (* d_read: a plain read (no barrier) *)
 
 Record gstate : Type := mkG {
   g_clock : N;
@@ -89,6 +93,17 @@ Definition shortcut (s : state) (o : op) : option res :=
   | OSRem m => if set_mem m (s_set s) then None else Some (RInt 0)
   | _ => None
   end.
+
+(* the history with the invocation time of every plain read moved back to 0: a read may take effect before
+   its own invocation (staleness), never after its reply *)
+Fixpoint relax_from (s : nat) (rd : list nat) (h : list hop) : list hop :=
+  match h with
+  | [] => []
+  | x :: t => (if existsb (Nat.eqb s) rd then mkHop (h_op x) 0 (h_ret x) else x) :: relax_from (S s) rd t
+  end.
+
+Definition read_ids (g : gstate) : list nat := map d_id (filter d_read (g_ldone g)).
+Definition relaxed_hist (g : gstate) : list hop := relax_from 0 (read_ids g) (g_hist g).
 
 Section Protocol.
   (* the state machine each replica runs; C07's conclusion (same log => same data and replies on every
@@ -153,7 +168,15 @@ Section Protocol.
       shortcut (r_st rs) (h_op h) = Some res ->
       pstep g (mkG (N.succ (g_clock g)) (set_ret (l_id q) (g_clock g, res) (g_hist g))
                    (g_inflight g) (g_log g) (g_rep g)
-                   (l1 ++ l2) (g_ldone g ++ [mkD (l_id q) (r_applied rs)]))
+                   (l1 ++ l2) (g_ldone g ++ [mkD (l_id q) (r_applied rs) false]))
+  | t_read : forall g r o,
+      (* a plain read (get/hget/llen/lrange/scard/smembers) as the code serves it: answered at once from the
+         local store of replica r (the one that believes it leads), no log entry, NO barrier *)
+      mutating o = false ->
+      pstep g (mkG (N.succ (N.succ (g_clock g)))
+                   (g_hist g ++ [mkHop o (g_clock g) (Some (N.succ (g_clock g), snd (step (r_st (g_rep g r)) o)))])
+                   (g_inflight g) (g_log g) (g_rep g) (g_wait g)
+                   (g_ldone g ++ [mkD (length (g_hist g)) (r_applied (g_rep g r)) true]))
   | t_fallback : forall g l1 q l2 h,
       g_wait g = l1 ++ q :: l2 ->
       nth_error (g_hist g) (l_id q) = Some h ->
